@@ -124,6 +124,14 @@ def cmd_check(pid: str, tier: str, seed: int) -> int:
             from . import selftest as st
 
             selftest = st.run_for_property(pid, seed)
+            if not os.environ.get("I2NSA_NO_SWEEP"):
+                # sensitivity of the rules to generic one-site edits of the analysed functions (a measure, never a verdict)
+                from . import automut
+
+                sw = automut.sweep(pid, sample=int(os.environ.get("I2NSA_SWEEP_SAMPLE", "240")), seed=seed)
+                selftest["sensitivity_sweep"] = {k: sw[k] for k in ("functions", "edits_generated", "edits_in_code", "pinned", "pinned_ratio", "by_kind", "logging_edits")}
+                selftest["sensitivity_sweep"]["silent_examples"] = [
+                    {"function": m["fref"], "line": m["line"], "kind": m["kind"], "old": m["old"][:80], "new": m["new"][:60]} for m in sw["silent"][:25]]
     except AnalysisError as error:
         print(f"ANALYSIS-ERROR property={pid} {error}")
         write_evidence(pid, tier, seed, ctx, time.time() - t0, [], [], error=str(error))
